@@ -46,6 +46,27 @@ Theorem C03_vm_collect_safe : forall s h,
     /\ (forall p o, holds_ref s' p -> get h p = Some o -> get h' p = Some o).
 Proof. exact vm_collect_safe_lemma. Qed.
 
+(* a collection is invisible to the program: what it can reach afterwards is exactly what it could
+   reach before, index by index the same objects -- the semantic core of "output, result and errors
+   do not depend on when collections happen" (the consequence for whole program runs is explored
+   by the schedule differential, not proved: there is no interpreter model here) *)
+Theorem C03_collection_invisible : forall s h s' h',
+  vm_collect s h = Some (s', h') ->
+  (forall i, program_reachable s' h' i <-> program_reachable s h i)
+  /\ (forall i, program_reachable s h i -> get h' i = get h i).
+Proof. exact vm_collect_invisible_lemma. Qed.
+
+(* ... and stays so under the allocations that follow: on a well-formed heap (free list = distinct
+   empty slots; an invariant of new/alloc/sweep) Heap::alloc hands out an empty slot, leaves every
+   other slot untouched and keeps the heap well-formed; sweep keeps it well-formed *)
+Theorem C03_alloc_preserves_live : forall h o h2 i,
+  heap_wf h -> alloc h o = (h2, i) ->
+  get h i = None /\ get h2 i = Some o /\ (forall j, j <> i -> get h2 j = get h j) /\ heap_wf h2.
+Proof. exact alloc_preserves_live. Qed.
+
+Theorem C03_sweep_preserves_wf : forall h m, heap_wf h -> heap_wf (sweep h m).
+Proof. exact sweep_wf. Qed.
+
 (* VM::collect's root list = the specification's places, in both directions *)
 Theorem C03_collect_roots_exact : forall s p, In p (collect_roots s) <-> holds_ref s p.
 Proof. intros s p. split; [exact (collect_roots_sound s p)|exact (collect_roots_complete s p)]. Qed.
